@@ -970,7 +970,7 @@ def write_changed_genotypes(f: TextIO, changed_genotypes) -> None:
         print(
             changed_genotype.sample,
             changed_genotype.chromosome,
-            changed_genotype.variant.position,
+            changed_genotype.variant.position + 1,
             changed_genotype.variant.reference_allele,
             changed_genotype.variant.alternative_allele,
             repr(changed_genotype.old_gt),
